@@ -2,7 +2,7 @@
    data.  Statements only: each theorem is closed by [exact], pinned by [Check]
    and followed by [Print Assumptions]. *)
 From Coq Require Import List NArith Bool.
-From RB Require Import Base.Val Base.Bytes Model.Bmp Spec.BmpRead Proofs.Bmp.
+From RB Require Import Base.Val Base.Bytes Model.Bmp Model.Mrt Spec.BmpRead Spec.MrtRead Proofs.Bmp Proofs.Mrt.
 Import ListNotations.
 Open Scope N_scope.
 
@@ -89,4 +89,95 @@ Proof. exact C19_bmp_tlv_truncation_refuted. Qed.
 Check bmp_tlv_truncation_refuted :
   exists tlvs : list (N * bytes), read_bmp_stream 1 (bmp_encode [] (Initiation tlvs)) = None.
 Print Assumptions bmp_tlv_truncation_refuted.
+
+(* (5) The RFC 6396 reader applied to what MrtCodec::encode appended returns one
+   BGP4MP_MESSAGE_AS4[_ADDPATH] record per BGP message of the monitored item
+   (however many the BGP encoder produced), each message whole; the subtype
+   states the ADD-PATH setting; the AFI is that of the peer address and both
+   addresses are carried with that size (mp_view). *)
+Theorem mrt_readback :
+  forall (ts : N) (m : mp_msg) (ty : N) (fs : list bytes),
+    ts < 2 ^ 32 -> wf_mph (mp_hdr m) -> mp_len_ok m -> fs <> [] -> frames_ok ty fs (mp_blob m) ->
+    forall fuel : nat, (length (mrt_encode ts [] m) <= fuel)%nat ->
+    read_mrt_stream fuel (mrt_encode ts [] m) = Some (map (mp_view ts m) fs).
+Proof. exact C19_mrt_readback. Qed.
+Check mrt_readback :
+  forall (ts : N) (m : mp_msg) (ty : N) (fs : list bytes),
+    ts < 2 ^ 32 -> wf_mph (mp_hdr m) -> mp_len_ok m -> fs <> [] -> frames_ok ty fs (mp_blob m) ->
+    forall fuel : nat, (length (mrt_encode ts [] m) <= fuel)%nat ->
+    read_mrt_stream fuel (mrt_encode ts [] m) = Some (map (mp_view ts m) fs).
+Print Assumptions mrt_readback.
+
+(* (6) Whatever the header and the blob: earlier bytes are untouched and every
+   record appended has a back-patched Length equal to the bytes after its header. *)
+Theorem mrt_length_exact :
+  forall (ts : N) (dst : bytes) (m : mp_msg), ts < 2 ^ 32 -> mp_len_ok m ->
+    firstn (length dst) (mrt_encode ts dst m) = dst /\
+    exists recs, skipn (length dst) (mrt_encode ts dst m) = concat recs /\ recs <> []
+                 /\ Forall record_length_exact recs.
+Proof. exact C19_mrt_length_exact. Qed.
+Check mrt_length_exact :
+  forall (ts : N) (dst : bytes) (m : mp_msg), ts < 2 ^ 32 -> mp_len_ok m ->
+    firstn (length dst) (mrt_encode ts dst m) = dst /\
+    exists recs, skipn (length dst) (mrt_encode ts dst m) = concat recs /\ recs <> []
+                 /\ Forall record_length_exact recs.
+Print Assumptions mrt_length_exact.
+
+(* (5') [same_family] cannot be dropped at the API: MpHeader::encode leaves out a local
+   address whose family differs from the peer's and the record does not read back.
+   The daemon passes the two ends of one TCP session. *)
+Theorem mrt_local_family_refuted :
+  exists m : mp_msg, frames_ok BGP_UPDATE [mp_blob m] (mp_blob m) /\ m_asn4 (mp_hdr m) = true /\
+    read_mrt_stream 10 (mrt_encode 0 [] m) = None.
+Proof. exact C19_mrt_local_family_refuted. Qed.
+Check mrt_local_family_refuted :
+  exists m : mp_msg, frames_ok BGP_UPDATE [mp_blob m] (mp_blob m) /\ m_asn4 (mp_hdr m) = true /\
+    read_mrt_stream 10 (mrt_encode 0 [] m) = None.
+Print Assumptions mrt_local_family_refuted.
+
+(* (5'') [m_asn4 = true] cannot be dropped at the API: with is_asn4 = false two-octet AS
+   numbers are written under the four-octet subtype.  The daemon always passes true. *)
+Theorem mrt_asn2_refuted :
+  exists m : mp_msg, frames_ok BGP_UPDATE [mp_blob m] (mp_blob m) /\
+    same_family (m_raddr (mp_hdr m)) (m_laddr (mp_hdr m)) /\
+    read_mrt_stream 10 (mrt_encode 0 [] m) = None.
+Proof. exact C19_mrt_asn2_refuted. Qed.
+Check mrt_asn2_refuted :
+  exists m : mp_msg, frames_ok BGP_UPDATE [mp_blob m] (mp_blob m) /\
+    same_family (m_raddr (mp_hdr m)) (m_laddr (mp_hdr m)) /\
+    read_mrt_stream 10 (mrt_encode 0 [] m) = None.
+Print Assumptions mrt_asn2_refuted.
+
+(* (7) A TABLE_DUMP_V2 record reads back to exactly what was written: Length = body
+   size; Peer Count / Entry Count = the number of peers / entries written, the
+   reader finds that many and nothing is left; peer types match address sizes;
+   every entry carries its attribute block and next hop (td_view). *)
+Theorem table_dump_counts_consistent :
+  forall (ts : N) (r : td_record), ts < 2 ^ 32 -> wf_td r -> td_len_ok r ->
+    read_mrt (encode_table_dump ts [] r) = Some (N.of_nat (length (td_body r)), td_view ts r, []).
+Proof. exact C19_table_dump_counts_consistent. Qed.
+Check table_dump_counts_consistent :
+  forall (ts : N) (r : td_record), ts < 2 ^ 32 -> wf_td r -> td_len_ok r ->
+    read_mrt (encode_table_dump ts [] r) = Some (N.of_nat (length (td_body r)), td_view ts r, []).
+Print Assumptions table_dump_counts_consistent.
+
+(* (7') the bound on the number of peers cannot be dropped: `peers.len() as u16` with 65536 peers. *)
+Theorem td_peer_count_refuted :
+  exists peers : list peer_entry, Forall wf_peer peers /\
+    read_mrt (encode_table_dump 0 [] (PeerIndexTable [1;1;1;1] peers)) = None.
+Proof. exact C19_td_peer_count_refuted. Qed.
+Check td_peer_count_refuted :
+  exists peers : list peer_entry, Forall wf_peer peers /\
+    read_mrt (encode_table_dump 0 [] (PeerIndexTable [1;1;1;1] peers)) = None.
+Print Assumptions td_peer_count_refuted.
+
+(* (7'') nor the bound on the number of entries: `entries.len() as u16` with 65536 paths of one prefix. *)
+Theorem td_entry_count_refuted :
+  exists es : list rib_entry, Forall (wf_entry false) es /\
+    read_mrt (encode_table_dump 0 [] (RibIpv4Unicast 0 [8; 10] es)) = None.
+Proof. exact C19_td_entry_count_refuted. Qed.
+Check td_entry_count_refuted :
+  exists es : list rib_entry, Forall (wf_entry false) es /\
+    read_mrt (encode_table_dump 0 [] (RibIpv4Unicast 0 [8; 10] es)) = None.
+Print Assumptions td_entry_count_refuted.
 
